@@ -9,6 +9,7 @@ Definition modelled_check : list point := [P_nomsg_isSuppressed; P_ret].
 
 Definition modelled_checkInternal : list point :=
   [ P_resetExitCode;                 (* R1: check_file, st0 *)
+    P_clear;                         (*     duplicate list emptied at the start (fix 8cb695c): st0 *)
     P_ret;                           (*     Settings::terminated(): not modelled (no findings) *)
     P_closePlist;                    (*     plist output file: not a finding state *)
     P_ret;                           (* Markup *)
@@ -16,12 +17,12 @@ Definition modelled_checkInternal : list point :=
     P_setRemarkComments;             (* R2 *)
     P_inlineSuppressions;            (*     add_all nomsg (a_inline f) *)
     P_nomsg_dump;                    (*     read only (dump prolog) *)
-    P_ret;                           (* Cached: analyzer info up to date -- before clear() *)
+    P_ret;                           (* Cached: analyzer info up to date *)
     P_ret;                           (* Cached: --check-config *)
     P_setLocationMacros;             (* R3: per configuration *)
     P_nomsg_markUnmatchedInlineSuppressionsAsChecked;   (* flags only (C24) *)
     P_ret;                           (* TerminateException: run is aborted *)
-    P_clear;                         (* R4 *)
+    P_clear;                         (* R4 (redundant for the next file since 8cb695c) *)
     P_ret ].
 
 Lemma reset_points_as_modelled :
